@@ -62,35 +62,37 @@ def coq_show(case):
 
 
 def oracle(case):
-    try:
-        d = rl.enum(case["tree"])
-    except IndexError:
-        return {"exc": "IndexError"}
-    agg = {}
+    d = rl.enum(case["tree"])
+    agg, err = {}, {}
     for rv, p in d.items():
+        if isinstance(rv, str):
+            err[rv[4:]] = pools.fq(err.get(rv[4:], Fraction(0)) + p) if False else err.get(rv[4:], Fraction(0)) + p
+            continue
         key = tuple(x for x in rv if x is not None)
         agg[key] = agg.get(key, 0) + p
-    return {"dist": [[[pools.fq(x) for x in k], pools.fq(v)] for k, v in sorted(agg.items())]}
+    return {"dist": [[[pools.fq(x) for x in k], pools.fq(v)] for k, v in sorted(agg.items())],
+            "errors": {k: pools.fq(v) for k, v in err.items()}}
 
 
 def agree(case, r, o):
     if "paths" not in r:
         return False
-    if "exc" in o:
-        return all(p["result"].get("exc") == o["exc"] for p in r["paths"]) and bool(r["paths"])
-    got = {}
+    got, goterr = {}, {}
     for p in r["paths"]:
         if "ok" not in p["result"]:
-            return False
+            e = p["result"].get("exc")
+            goterr[e] = goterr.get(e, 0) + Fraction(*p["prob"])
+            continue
         live = [x for x in p["result"]["ok"] if x is not None]
         if live != p["result"]["outcomes"]:
             return False          # outcomes()/total() must report exactly the non-dropped values
         key = tuple(Fraction(*x) for x in live)
         got[key] = got.get(key, 0) + Fraction(*p["prob"])
     want = {tuple(Fraction(*x) for x in k): Fraction(*v) for k, v in o["dist"]}
+    wanterr = {k: Fraction(*v) for k, v in o.get("errors", {}).items()}
     if r["exhaustive"]:
-        return got == want
-    return all(k in want and v <= want[k] for k, v in got.items())
+        return got == want and goterr == wanterr
+    return all(k in want and v <= want[k] for k, v in got.items()) and all(k in wanterr for k in goterr)
 
 
 def nontrivial(case, r):
